@@ -190,6 +190,26 @@ def run(ctx):
                     if nbad <= 4:
                         ctx.violation(msg, {"kind": "struct", "n": n, "sizes": sizes, "wide": wide, "entry": name, "seed": ctx.seed})
                     break
+    # production scale (the default sub-group of 50 plates of 384 wells): a plate's score is still the score it gets when scored alone
+    # (which the small structures above tie to the direct estimator), whatever the implementation does to bound its temporaries
+    for n_, P_, E_ in ([(20, 50, 384)] if ctx.quick else [(20, 50, 384), (12, 103, 1536), (32, 50, 96)]):
+        g = np.random.default_rng(ctx.seed + n_)
+        pm = g.uniform(-2, 2, size=(P_, n_, E_))
+        pv = np.exp(g.uniform(-1, 1, size=(P_, n_, E_)))
+        dm = np.abs(g.normal(size=(n_, n_)))
+        dm = dm + dm.T
+        np.fill_diagonal(dm, 0.0)
+        st, together = outcome(G.dbal_fast_gauss_scoring_vectorized, pm.copy(), pv.copy(), dm.copy(), np.random.default_rng(1), 10 ** 6)
+        ctx.evaluations += 1
+        if st != "ok":
+            ctx.violation("vectorized scoring of %d plates x %d wells (n=%d) raised %s" % (P_, E_, n_, together), {"kind": "scale", "n": n_, "P": P_, "E": E_})
+            continue
+        for p_ in sorted(set([0, P_ // 2, P_ - 1])):
+            st, alone = outcome(G.dbal_fast_gauss_scoring_vectorized, pm[p_:p_ + 1].copy(), pv[p_:p_ + 1].copy(), dm.copy(), np.random.default_rng(2), 10 ** 6)
+            if st != "ok" or not close(float(together[p_]), float(alone[0]), abs(float(alone[0])) + 1.0, 1e-9):
+                ctx.violation("plate %d of %d (x %d wells, n=%d): score %.17g when scored with the others, %s when scored alone" % (
+                    p_, P_, E_, n_, float(together[p_]), alone if st != "ok" else "%.17g" % float(alone[0])), {"kind": "scale", "n": n_, "P": P_, "E": E_})
+                break
     ctx.traces += len(structs)
     ctx.sample({"structure": {"n": structs[3][0], "plate_sizes": structs[3][1]}, "term_nodes": len(json.dumps(terms[(structs[3][0], structs[3][1][0])]))})
     ctx.extra["structures_replayed"] = len(structs)
